@@ -187,41 +187,31 @@ Proof.
   apply Rmin_right. apply qdot_unit_le1; assumption.
 Qed.
 
+(* for a PROPER pair the eager and lazy symmetry-reduced dot products agree for
+   every list of unit symmetry elements, proper or not: the eager path zeroes
+   the improper elements, the lazy path filters them out *)
 Lemma sym_dot_proper (S : list (rot (T:=R))) (m : Rq) :
-  qnorm2 ROps m = 1 -> Forall (fun s => qnorm2 ROps (fst s) = 1 /\ snd s = false) S ->
+  qnorm2 ROps m = 1 -> Forall (fun s => qnorm2 ROps (fst s) = 1) S ->
   sym_dot_eager ROps S (m, false) = sym_dot_lazy ROps S m.
 Proof.
-  intros Hm HS. unfold sym_dot_eager, sym_dot_lazy. f_equal.
-  induction HS as [|s S [Hs Hf] _ IH]; simpl; [reflexivity|].
-  rewrite IH. f_equal. destruct s as [sq sf]. cbn [fst snd] in *. subst sf.
-  apply sym_term_proper; assumption.
+  intros Hm HS. unfold sym_dot_eager, sym_dot_lazy, sym_dot_all.
+  induction HS as [|s S Hs _ IH]; [reflexivity|].
+  destruct s as [sq sf]. cbn [fst snd] in *. cbn [map filter snd negb].
+  rewrite lmax0_cons. destruct sf; cbn [negb].
+  - unfold sym_term_eager at 1. cbn [fst snd xorb]. change (o_ofZ ROps 0) with 0.
+    rewrite Rmax_right by apply lmax0_nonneg. exact IH.
+  - cbn [map fst]. rewrite lmax0_cons. rewrite IH. f_equal. apply sym_term_proper; assumption.
 Qed.
 
-(* ... and differ as soon as a flag is set: identity symmetry, improper pair *)
+(* ... and differ as soon as the pair is improper: identity symmetry, improper `other` *)
 Lemma sym_dot_improper_pair_differs :
   sym_dot_eager ROps [((1, 0, 0, 0), false)] ((1, 0, 0, 0), true) = 0 /\
   sym_dot_lazy ROps [((1, 0, 0, 0), false)] (1, 0, 0, 0) = 1.
 Proof.
-  unfold sym_dot_eager, sym_dot_lazy, sym_term_eager. cbn [map fst snd xorb].
+  unfold sym_dot_eager, sym_dot_lazy, sym_dot_all, sym_term_eager. cbn [map filter fst snd xorb negb].
   rewrite !lmax0_cons. change (lmax0 ROps []) with 0. dunfold. split.
   - apply Rmax_left; lra.
   - replace (1 * 1 + 0 * 0 + 0 * 0 + 0 * 0) with 1 by ring. rewrite Rabs_R1. apply Rmax_left; lra.
-Qed.
-
-(* ... or when the group has an improper element without being centrosymmetric:
-   group {1, m_z} (mirror = improper two-fold about z), the PROPER two-fold
-   rotation about z as the pair: eager 0 (angle pi), lazy 1 (angle 0) *)
-Lemma sym_dot_improper_symmetry_differs :
-  let Cs := [((1, 0, 0, 0), false); ((0, 0, 0, 1), true)] in
-  sym_dot_eager ROps Cs ((0, 0, 0, 1), false) = 0 /\ sym_dot_lazy ROps Cs (0, 0, 0, 1) = 1.
-Proof.
-  unfold sym_dot_eager, sym_dot_lazy, sym_term_eager. cbn [map fst snd xorb].
-  rewrite !lmax0_cons. change (lmax0 ROps []) with 0. rewrite o_min_Rmin. dunfold. split.
-  - replace (0 * 1 + 0 * 0 + 0 * 0 + 1 * 0) with 0 by ring. rewrite Rabs_R0.
-    rewrite Rmin_right by lra. rewrite (Rmax_left 0 0) by lra. rewrite Rmax_left by lra. reflexivity.
-  - replace (0 * 1 + 0 * 0 + 0 * 0 + 1 * 0) with 0 by ring.
-    replace (0 * 0 + 0 * 0 + 0 * 0 + 1 * 1) with 1 by ring. rewrite Rabs_R0, Rabs_R1.
-    rewrite (Rmax_left 1 0) by lra. apply Rmax_right; lra.
 Qed.
 
 (* the angles then differ too: pi against 0 *)
